@@ -7,7 +7,13 @@ HEADER = '#![feature(allocator_api)]'
 STDMODEL = ['iter.rs', 'hash.rs', 'btree.rs', 'std.rs']
 EV = 'cedar-policy-core/src/tpe/evaluator.rs'
 RES = 'cedar-policy-core/src/tpe/residual.rs'
-ASSUMPTIONS = []
+ASSUMPTIONS = [
+    'A completion (concrete request + entity store) is read through uninterpreted functions; `cons` says it agrees with everything the partial request / partial entities know (the checks of unit tpe_consist decide exactly this).',
+    'Soundness is stated for completions under which the input residual has no TYPE error (types_ok: what validation guarantees; type soundness itself is C03 and not proved). Overflow, missing attributes / tags / entities and extension calls are not type errors.',
+    'The stack-depth guard is assumed to pass (on overflow TPE answers Residual::Error). Extension values are identified with their canonical representation (normalize_ext_value).',
+    'Extension calls, set and record literals are evaluated by the code under contract but their meaning is left unspecified (U): only their unwrap sites are proved unreachable.',
+    'Operator semantics (binary_relation / binary_arith / unary_app: unit eval_ops), Set operations (unit value_set), Pattern::wildcard_match (unit pattern) enter as uninterpreted functions of the operand kinds.',
+]
 _s = importlib.util.spec_from_file_location('vx_tpe_residual_for_eval', os.path.join(os.path.dirname(os.path.abspath(__file__)), '..', 'tpe_residual', 'unit.py'))
 _m = importlib.util.module_from_spec(_s); _s.loader.exec_module(_m)
 def _rebased(items):
@@ -29,21 +35,21 @@ RW = [
     (r'entity_type == self\.request\.(principal|resource)_type\(\)', r'vx_etype_eq(entity_type, self.request.\1_type())', None),
     (r'uid1 == uid2', 'vx_uid_eq(uid1, uid2)', None),
     # --- the four local constructors
-    ClosureRw(r'', '', 'Residual', ensures='x == Residual::Error(r.spec_ty())', rname='x', count=1, follow=r'Residual::Error'),
-    ClosureRw(r'kind: ResidualKind', 'kind: ResidualKind', 'Residual', ensures='x == (Residual::Partial { kind, ty: r.spec_ty() })', rname='x', count=1),
-    ClosureRw(r'v: Value', 'v: Value', 'Residual', ensures='x is Concrete && x->Concrete_value.value == v.value && x->Concrete_ty == r.spec_ty()', rname='x', count=1),
-    ClosureRw(r'arg1, arg2', 'arg1: Residual, arg2: Residual', 'Residual', ensures='x == (Residual::Partial { kind: ResidualKind::BinaryApp { op: *op, arg1: Arc::new(arg1), arg2: Arc::new(arg2) }, ty: r.spec_ty() })', rname='x', count=1),
+    ClosureRw(r'', '', 'Residual', ensures='x == Residual::Error(r.spec_ty()) && can_err(x) && forall|c: Cx| #[trigger] rsem(c, x) == R::E', rname='x', count=1, follow=r'Residual::Error'),
+    ClosureRw(r'kind: ResidualKind', 'kind: ResidualKind', 'Residual', ensures='x == (Residual::Partial { kind, ty: r.spec_ty() }) && can_err(x) == can_err_kind(kind) && forall|c: Cx| #[trigger] rsem(c, x) == ksem(c, kind)', rname='x', count=1),
+    ClosureRw(r'v: Value', 'v: Value', 'Residual', ensures='x is Concrete && x->Concrete_value.value == v.value && x->Concrete_ty == r.spec_ty() && !can_err(x) && forall|c: Cx| #[trigger] rsem(c, x) == R::V(v.value)', rname='x', count=1),
+    ClosureRw(r'arg1, arg2', 'arg1: Residual, arg2: Residual', 'Residual', ensures='x == (Residual::Partial { kind: ResidualKind::BinaryApp { op: *op, arg1: Arc::new(arg1), arg2: Arc::new(arg2) }, ty: r.spec_ty() }) && can_err(x) == can_err_kind(ResidualKind::BinaryApp { op: *op, arg1: Arc::new(arg1), arg2: Arc::new(arg2) }) && forall|c: Cx| #[trigger] rsem(c, x) == ksem(c, ResidualKind::BinaryApp { op: *op, arg1: Arc::new(arg1), arg2: Arc::new(arg2) })', rname='x', count=1),
     # --- lists: arguments of extension calls, set elements, record fields
     (r'args\.iter\(\)\.map\(', 'vx_arc_vec_iter(args).map(', 1),
     (r'es\.iter\(\)\.map\(', 'vx_arc_vec_iter(es).map(', 1),
-    ClosureRw(r'a', 'a: &Residual', 'Residual', rname='x', count=1, follow=r'self\.interpret\(a\)'),
-    ClosureRw(r'e', 'e: &Residual', 'Residual', rname='x', count=1, follow=r'self\.interpret\(e\)'),
+    ClosureRw(r'a', 'a: &Residual', 'Residual', ensures='sound(self, *a, x)', rname='x', count=1, follow=r'self\.interpret\(a\)'),
+    ClosureRw(r'e', 'e: &Residual', 'Residual', ensures='sound(self, *e, x)', rname='x', count=1, follow=r'self\.interpret\(e\)'),
     (r'(args|es)\.iter\(\)\.all\(Residual::is_concrete\)', r'vx_vec_iter(&\1).all(|x: &Residual| -> (b: bool) ensures b == (*x is Concrete) { x.is_concrete() })', 2),
     (r'(args|es)\.iter\(\)\.any\(Residual::is_error\)', r'vx_vec_iter(&\1).any(|x: &Residual| -> (b: bool) ensures b == (*x is Error) { x.is_error() })', 2),
     (r'(args|es)\.into_iter\(\)\.map\(', r'vx_vec_into_iter(\1).map(', 2),
     ClosureRw(r'a', 'a: Residual', 'Value', requires='a is Concrete', ensures='v == a->Concrete_value', rname='v', count=2, follow=r'\{'),
     (r'Value::try_from\((a|r)\)\.unwrap\(\)', r'Value::try_from_residual(\1).unwrap()', 3),
-    ClosureRw(r'\(a, e\)', '_vxp: (&SmolStr, &Residual)', '(SmolStr, Residual)', ensures='x.0 == *_vxp.0', rname='x', destructure='(a, e)', count=1),
+    ClosureRw(r'\(a, e\)', '_vxp: (&SmolStr, &Residual)', '(SmolStr, Residual)', ensures='x.0 == *_vxp.0 && sound(self, *_vxp.1, x.1)', rname='x', destructure='(a, e)', count=1),
     ClosureRw(r'\(_, r\)', '_vxp: (&SmolStr, &Residual)', 'bool', ensures='b == (*_vxp.1 is Concrete)', rname='b', destructure='(_, r)', count=1, follow=r'r\.is_concrete'),
     ClosureRw(r'\(_, r\)', '_vxp: (&SmolStr, &Residual)', 'bool', ensures='b == (*_vxp.1 is Error)', rname='b', destructure='(_, r)', count=1, follow=r'r\.is_error'),
     ClosureRw(r'\(a, r\)', '_vxp: (SmolStr, Residual)', '(SmolStr, Value)', requires='_vxp.1 is Concrete', ensures='x.0 == _vxp.0 && x.1 == _vxp.1->Concrete_value', rname='x', destructure='(a, r)', count=1),
@@ -54,12 +60,45 @@ RW = [
 ITEMS = _rebased(_m.ITEMS) + [
     Raw(file='prelude.rs', tag='prelude'),
     Type(EV, 'struct Evaluator'),
+    Raw(file='spec.rs', tag='spec'),
     Fn(RES, 'impl Residual > fn ty', name='Residual::ty', wrap='impl Residual', ensures=[('ty', '*r == self.spec_ty()')]),
     Fn(RES, 'impl Residual > fn is_concrete', name='Residual::is_concrete', wrap='impl Residual', ensures=[('concrete', 'r == (*self is Concrete)')]),
     Fn(RES, 'impl Residual > fn is_error', name='Residual::is_error', wrap='impl Residual', ensures=[('error', 'r == (*self is Error)')]),
     Fn(RES, 'impl TryFrom<Residual> for Value > fn try_from', name='Value::try_from<Residual>', wrap='impl Value',
        sig_rewrites=[(r'fn try_from\(', 'fn try_from_residual(', 1), (r'Self::Error', '()', 1)],
        ensures=[('concrete', 'r is Ok <==> value is Concrete'), ('value', 'r is Ok ==> r->Ok_0 == value->Concrete_value')]),
-    Fn(EV, "impl Evaluator<'_> > fn interpret", name='Evaluator::interpret', wrap="impl Evaluator<'_>", attrs=NODEC, ret='out', 
+    Fn(EV, "impl Evaluator<'_> > fn interpret", name='Evaluator::interpret', wrap="impl Evaluator<'_>", attrs=NODEC, ret='out',
+       ensures=[('sound_concrete', '!(*r is Partial) ==> sound(self, *r, out)'),
+                ('sound_var', '*r is Partial && r->Partial_kind is Var ==> sound(self, *r, out)'),
+                ('sound_and', '*r is Partial && r->Partial_kind is And ==> sound(self, *r, out)'),
+                ('sound_or', '*r is Partial && r->Partial_kind is Or ==> sound(self, *r, out)'),
+                ('sound_if', '*r is Partial && r->Partial_kind is If ==> sound(self, *r, out)'),
+                ('sound_is', '*r is Partial && r->Partial_kind is Is ==> sound(self, *r, out)'),
+                ('sound_like', '*r is Partial && r->Partial_kind is Like ==> sound(self, *r, out)'),
+                ('sound_binaryapp', '*r is Partial && r->Partial_kind is BinaryApp ==> sound(self, *r, out)'),
+                ('sound_getattr', '*r is Partial && r->Partial_kind is GetAttr ==> sound(self, *r, out)'),
+                ('sound_hasattr', '*r is Partial && r->Partial_kind is HasAttr ==> sound(self, *r, out)'),
+                ('sound_unaryapp', '*r is Partial && r->Partial_kind is UnaryApp ==> sound(self, *r, out)'),
+                ('sound_extensionfunctionapp', '*r is Partial && r->Partial_kind is ExtensionFunctionApp ==> sound(self, *r, out)'),
+                ('sound_set', '*r is Partial && r->Partial_kind is Set ==> sound(self, *r, out)'),
+                ('sound_record', '*r is Partial && r->Partial_kind is Record ==> sound(self, *r, out)'),
+                ],
+       hints=[(r'ResidualKind::GetAttr \{ expr, attr \} => \{', 'let ghost subr = expr;'),
+              (r'ResidualKind::GetAttr \{ expr, attr \} => \{\s*let expr = self\.interpret\(expr\);', '''proof {
+                    assert(r->Partial_kind->GetAttr_expr == *subr);
+                    assert(sound(self, **subr, expr));
+                    assert forall|c: Cx| #[trigger] rsem(c, *r) == ksem(c, r->Partial_kind) by {}
+                    assert forall|c: Cx| types_ok(c, *r) implies #[trigger] types_ok(c, **subr) by {}
+                    assert forall|c: Cx| #[trigger] ksem(c, r->Partial_kind) == (match rsem(c, **subr) {
+                        R::V(ValueKind::Record(m)) => if m@.contains_key(*attr) { R::V(m@[*attr].value) } else { R::E },
+                        R::V(ValueKind::Lit(Literal::EntityUID(u))) => match cx_attrs(c, *u) { Some(m) => if m.contains_key(*attr) { R::V(m[*attr].value) } else { R::E }, None => R::E },
+                        R::V(_) => R::E,
+                        x => x,
+                    }) by {}
+                }''')],
        rewrites=RW),
 ]
+VERUS_ARGS = ['--multiple-errors', '30']
+# a false obligation in this 450-line function is refuted only after a long search: give the solver room (the unchanged tree needs ~6 s)
+RLIMIT = {'quick': 400, 'thorough': 1200}
+CANARIES = ['Evaluator::interpret']
